@@ -52,6 +52,8 @@ enum Op : int {
   kSubscribeInherit,  // SharedFutureOn::Subscribe(f)
   kWhenAllOwn,  // WhenAll<None>(std::move(own copy), other ready shared future): consumes the observer's copy, always last
   kWhenAnyOwn,  // WhenAny(std::move(own copy), own copy's duplicate): consumes the observer's copy, always last
+  kWhenAnyIterAux,  // WhenAny(begin, 2) over {copy, copy of a second shared state that is fulfilled later}: iterator form, two pending shared inputs
+  kWhenAllIterAux,  // WhenAll<None>(begin, 2) over the same pair
   kTouchMove,   // if Ready(): std::move(own).Touch() (moves the value out only if provably last); always last
   kGetMove,     // consumes the observer's copy: always last
   kDropCopy,    // destroys the observer's copy: always last
@@ -59,7 +61,7 @@ enum Op : int {
 };
 const char* kOpNames[] = {"ThenInline", "Then(e)", "SubscribeInline", "Subscribe(e)", "Share().Get", "Share(e).ThenInline", "Connect(unique promise)",
                           "Connect(shared promise)", "Wait+Touch", "Get const&", "Ready()+Touch", "copy, use the copy, destroy it", "WhenAll(copy, copy)",
-                          "WhenAny(copy, copy)", "co_await copy", "co_await Await(copy)", "SharedFutureOn::Then(f)", "SharedFutureOn::Subscribe(f)", "WhenAll(move(own), other)", "WhenAny(move(own), copy)", "Ready() then Touch&&", "Get&&", "drop own copy"};
+                          "WhenAny(copy, copy)", "co_await copy", "co_await Await(copy)", "SharedFutureOn::Then(f)", "SharedFutureOn::Subscribe(f)", "WhenAll(move(own), other)", "WhenAny(move(own), copy)", "WhenAny(begin,2){copy, later}", "WhenAll<None>(begin,2){copy, later}", "Ready() then Touch&&", "Get&&", "drop own copy"};
 enum Producer : int { kSetValue, kSetError, kSetException, kDropPromise, kProducerCount };
 const char* kProducerNames[] = {"Set(value)", "Set(error)", "Set(exception)", "drop promise"};
 
@@ -104,6 +106,9 @@ class Case final : public sim::CaseBase {
       const std::uint32_t n = 1 + g.Draw(max_ops);
       for (std::uint32_t k = 0; k < n; ++k) {
         int op = static_cast<int>(g.Draw(kOpCount));
+        if ((op == kWhenAnyIterAux || op == kWhenAllIterAux) && (run_kind == 1 || run_kind == 2)) {
+          op = kWhenAllCopies;  // no producer thread to order the second shared state after the first one
+        }
         const bool consumes = op == kGetMove || op == kDropCopy || op == kWhenAllOwn || op == kWhenAnyOwn || op == kTouchMove;
         if (by_reference && consumes) {
           op = kGetConst;
@@ -385,6 +390,32 @@ class Case final : public sim::CaseBase {
             Saw(o, op, sim::Observe(std::move(f).Get(), "WhenAny(move(own), copy)"));
           }
         } break;
+        case kWhenAnyIterAux: {
+          std::vector<SF> v{SF{c}, SF{*aux}};
+          auto f = yaclib::WhenAny(v.begin(), v.size());
+          v.clear();
+          const Outcome got = sim::Observe(std::move(f).Get(), "WhenAny(begin,2){copy, later}");
+          const Outcome want = Model().kind == OKind::Value ? Model() : Outcome{OKind::Value, 555};
+          if (got != want) {
+            sim::Fail("WRONG_RESULT", "observer %d: WhenAny(begin,2) over {the shared future, one fulfilled later with 555} gave %s, expected %s", o, got.Str().c_str(),
+                      want.Str().c_str());
+          }
+        } break;
+        case kWhenAllIterAux: {
+          std::vector<SF> v{SF{c}, SF{*aux}};
+          auto f = yaclib::WhenAll<yaclib::FailPolicy::None>(v.begin(), v.size());
+          v.clear();
+          auto r = std::move(f).Get();
+          if (!r || std::as_const(r).Value().size() != 2) {
+            sim::Fail("WRONG_RESULT", "WhenAll<None>(begin,2) did not produce two results");
+          } else {
+            Saw(o, op, sim::Observe(std::as_const(r).Value()[0], "WhenAll<None>(begin,2)[0]"));
+            const Outcome second = sim::Observe(std::as_const(r).Value()[1], "WhenAll<None>(begin,2)[1]");
+            if (second != Outcome{OKind::Value, 555}) {
+              sim::Fail("WRONG_RESULT", "observer %d: WhenAll<None>(begin,2)[1] is %s, the second shared state was fulfilled with 555", o, second.Str().c_str());
+            }
+          }
+        } break;
         case kTouchMove: {
           if (own != nullptr && own->Ready()) {
             SIM_PROBE("touch_rvalue");
@@ -542,6 +573,10 @@ class Case final : public sim::CaseBase {
                                              : yaclib_std::thread{[fulfil = std::move(fulfil), pp = std::move(promise)]() mutable {
                                                  fulfil(std::move(pp));
                                                }};
+      auto [aux_f, aux_p] = yaclib::MakeSharedContract<T, E>();
+      SF aux_future = std::move(aux_f);
+      yaclib::SharedPromise<T, E> aux_promise = std::move(aux_p);
+      aux = &aux_future;
       std::deque<yaclib_std::thread> ts;
       for (int o = 0; o < observers; ++o) {
         ts.emplace_back([this, o, &by_ref_handle, &copies] {
@@ -552,9 +587,13 @@ class Case final : public sim::CaseBase {
         root = SF{};
       }
       prod.join();
+      // the second shared state of the iterator-form combinator ops: fulfilled only after the main one
+      std::move(aux_promise).Set(T{555});
       for (auto& t : ts) {
         t.join();
       }
+      aux = nullptr;
+      aux_future = SF{};
       if ((subsumed & 1) != 0) {
         Saw(-1, kConnectUnique, sim::Observe(std::move(sub_uf).Get(), "Get of the future of a unique promise connected to the primary shared promise"));
       }
@@ -617,6 +656,7 @@ class Case final : public sim::CaseBase {
 
   int producer = 0, observers = 2;
   bool split_unique = false, split_after_set = false;
+  const SF* aux = nullptr;
   int subsumed = 0;
   int run_kind = 0;
   const yaclib::SharedFutureOn<T, E>* on_handle = nullptr;
